@@ -25,5 +25,5 @@ Definition law (rs : list res) (v : value) : state :=
 Definition suppressed (rs : list res) : bool := existsb evblocker_failed rs.
 
 (* folding the results of a list of conditions into a tracker, as apply_conditions does *)
-Definition step (t : tracker) (r : res) : tracker := apply_result t (fst r) (snd r).
-Definition run_results (rs : list res) (t : tracker) : tracker := fold_left step rs t.
+Definition law_step (t : tracker) (r : res) : tracker := apply_result t (fst r) (snd r).
+Definition run_results (rs : list res) (t : tracker) : tracker := fold_left law_step rs t.
